@@ -170,7 +170,10 @@ def _plain_has(leaf, cp, env):
         return r != c.isupper()
     if k == 'cat':
         g = _cat(cp, env)
-        r = (g == leaf[1]) if len(leaf[1]) == 2 else (g[0] == leaf[1])
+        if cp >= 0x10000 and 'supp-cn' in env.quirks:
+            r = leaf[1] == 'Cn'       # the engine files them under Cn only, not under the group C
+        else:
+            r = (g == leaf[1]) if len(leaf[1]) == 2 else (g[0] == leaf[1])
         return r != leaf[2]
     if k == 'blk':
         r = any(lo <= cp <= hi for lo, hi in BLOCKS[leaf[1]])
@@ -192,6 +195,9 @@ def _icase_has(leaf, cp, env):
     if k in ('lit', 'rng'):
         return any(_plain_has(leaf, v, env) for v in case_variants(cp))
     if k == 'cls':
+        if leaf[3] is not None and 'icase-subtraction-closure' in env.quirks:
+            # engine: negation and subtraction are applied first, the resulting set is then closed under case
+            return any(_plain_has(leaf, v, env) for v in case_variants(cp))
         r = any(_icase_has(it, cp, env) for it in leaf[2])
         if leaf[1]:
             r = not r
@@ -833,6 +839,8 @@ class Gen:
         else:
             mn = r.choice([0, 0, 1, 1, 2]); mx = mn + r.choice([0, 1, 1, 2, 3])
         lazy = (not self.xsd) and r.random() < 0.2
+        if lazy and mx is None and nullable_ast(a):
+            lazy = False
         return ('rep', a, mn, mx, f, lazy)
 
     def piece(self, depth):
@@ -903,7 +911,7 @@ def sample_member(ast, env, rnd, maxrep=3):
             for c in n[1]: go(c)
         elif k == 'alt': go(rnd.choice(n[1]))
         elif k == 'rep':
-            hi = n[3] if n[3] is not None else n[2] + rnd.choice([0, 1, 2, maxrep, 6])
+            hi = n[3] if n[3] is not None else n[2] + rnd.choice([0, 1, 2, maxrep, 2 * maxrep])
             for _ in range(rnd.randint(n[2], hi)): go(n[1])
     try:
         go(ast)
@@ -1050,26 +1058,95 @@ def closures(ast):
     """[(path, info)] for every closure; info: unbounded, op_nullable, op_choice, cont_nullable, cont_empty"""
     out = []
 
-    def visit(n, path, cn, ce):
+    def visit(n, path, cn, ce, cv, first):
         k = n[0]
         if k == 'seq':
             ch = n[1]
             for i, c in enumerate(ch):
                 rest = ch[i + 1:]
-                visit(c, path + (i,), cn and all(nullable_ast(x) for x in rest), ce and all(max_len_zero(x) for x in rest))
+                visit(c, path + (i,), cn and all(nullable_ast(x) for x in rest), ce and all(max_len_zero(x) for x in rest),
+                      cv or any(varlen(x) for x in rest), first and all(nullable_ast(x) for x in ch[:i]))
         elif k == 'alt':
             for i, c in enumerate(n[1]):
-                visit(c, path + (i,), cn, ce)
+                visit(c, path + (i,), cn, ce, cv, first)
         elif k == 'grp':
-            visit(n[1], path + (0,), cn, ce)
+            visit(n[1], path + (0,), cn, ce, cv, first)
         elif k == 'rep':
             if is_closure(n):
                 out.append((path, dict(unbounded=n[3] is None, op_nullable=nullable_ast(n[1]), op_choice=has_choice(n[1]),
-                                       cont_nullable=cn, cont_empty=ce, form=n[4])))
+                                       cont_nullable=cn, cont_empty=ce, cont_var=cv, form=n[4], first=first,
+                                       op_dot=n[1][0] == 'dot' or (n[1][0] == 'grp' and n[1][1][0] == 'dot'),
+                                       op_class=n[1][0] in ('cls', 'esc', 'cat', 'blk'))))
             loops = n[3] is None or n[3] > 1
-            visit(n[1], path + (0,), cn, ce and not loops)
-    visit(ast, (), True, True)
+            visit(n[1], path + (0,), cn, ce and not loops, cv or n[2] != n[3] or (loops and varlen(n[1])), first)
+    visit(ast, (), True, True, False, True)
     return out
+
+
+def min_len(n):
+    k = n[0]
+    if is_leaf(n): return 1
+    if k in ('eps', 'bol', 'eol'): return 0
+    if k == 'grp': return min_len(n[1])
+    if k == 'seq': return sum(min_len(c) for c in n[1])
+    if k == 'alt': return min(min_len(c) for c in n[1])
+    if k == 'rep': return n[2] * min_len(n[1])
+    raise ValueError(n)
+
+
+def max_len(n):
+    """None = unbounded"""
+    k = n[0]
+    if is_leaf(n): return 1
+    if k in ('eps', 'bol', 'eol'): return 0
+    if k == 'grp': return max_len(n[1])
+    if k == 'seq':
+        t = 0
+        for c in n[1]:
+            m = max_len(c)
+            if m is None: return None
+            t += m
+        return t
+    if k == 'alt':
+        t = 0
+        for c in n[1]:
+            m = max_len(c)
+            if m is None: return None
+            t = max(t, m)
+        return t
+    if k == 'rep':
+        m = max_len(n[1])
+        if m == 0 or n[3] == 0: return 0
+        if m is None or n[3] is None: return None
+        return m * n[3]
+    raise ValueError(n)
+
+
+def varlen(n):
+    return min_len(n) != max_len(n)
+
+
+def P_varlen_cont(info):
+    """closure whose continuation to the end of the expression can succeed with different lengths"""
+    return info['cont_var']
+
+
+def P_leading_dot(info):
+    """closure over '.' that can start a match"""
+    return info['first'] and info['op_dot']
+
+
+def unnegate_classes(ast):
+    """[^items] (no subtraction) -> [\\x01-\\x{10FFFF}-[items]] : same language on strings without U+0000"""
+    def go(n):
+        k = n[0]
+        if k == 'cls' and n[1] and n[3] is None:
+            return ('cls', False, [('rng', 1, 0x10FFFF)], ('cls', False, list(n[2]), None))
+        if k in ('seq', 'alt'): return (k, [go(c) for c in n[1]])
+        if k == 'grp': return ('grp', go(n[1]))
+        if k == 'rep': return ('rep', go(n[1]), n[2], n[3], n[4], n[5])
+        return n
+    return go(ast)
 
 
 def P_nullable_cont(info):
@@ -1264,19 +1341,23 @@ def strings_for(ast, env, rnd, big=False, nlong=24):
     wide = list(dict.fromkeys(order + alpha + SUPP[:3] + [0x0A, 0x20]))
     if not env.xsd:
         wide = [c for c in wide if c != 0x0D]
+    # a backtracking engine needs time exponential in the string length for a choice inside a repetition:
+    # such expressions get long strings of at most 12 characters (the verdict is still compared)
+    risky = any(x[0] == 'rep' and (x[3] is None or x[3] >= 3) and has_choice(x[1]) for x in walk(ast))
+    cap = 12 if risky else 60
     for i in range(nlong):
         m = i % 3
-        s = sample_member(ast, env, rnd)
+        s = sample_member(ast, env, rnd, maxrep=2 if risky else 3)
         if s is None or m == 2:
-            s = [rnd.choice(wide) for _ in range(rnd.choice([5, 6, 8, 12, 20, 40]))]
+            s = [rnd.choice(wide) for _ in range(rnd.choice([5, 6, 8, 12] if risky else [5, 6, 8, 12, 20, 40]))]
         elif m == 1 and s:
             j = rnd.randrange(len(s))
             op = rnd.random()
             if op < 0.35: del s[j]
             elif op < 0.7: s.insert(j, rnd.choice(wide))
             else: s[j] = rnd.choice(wide)
-        if len(s) > 60:
-            s = s[:60]
+        if len(s) > cap:
+            s = s[:cap]
         if not env.xsd:
             s = [c for c in s if c != 0x0D]
         add(s)
@@ -1304,7 +1385,7 @@ def mutants(rnd, dialect, n):
     xsd = dialect == 'xsd'
     ops = ['unclosed-group', 'unopened-group', 'leading-quantifier', 'quantifier-after-bar', 'quantifier-after-lparen',
            'double-quantifier', 'bad-quantity', 'unclosed-class', 'empty-class', 'empty-neg-class', 'reversed-range',
-           'bad-escape', 'trailing-backslash', 'bad-category', 'bare-close-bracket', 'bare-brace', 'bracket-in-class',
+           'bad-escape', 'trailing-backslash', 'bad-category', 'unclosed-category', 'open-brace-category-at-end', 'bare-close-bracket', 'bare-brace', 'bracket-in-class',
            'lone-high-surrogate']
     if xsd:
         ops += ['lazy-quantifier', 'dollar-escape', 'backreference']
@@ -1337,15 +1418,18 @@ def mutants(rnd, dialect, n):
         elif op == 'bad-escape': p = A + '\\' + rnd.choice(_BAD_ESC) + B
         elif op == 'trailing-backslash': p = A + '\\'
         elif op == 'bad-category':
-            if rnd.random() < 0.3: p = A + rnd.choice(['\\p{L', '\\p', '\\P', '\\p{', '\\p{IsGreek'])
-            else: p = A + rnd.choice(['\\p{Xx}', '\\p{}', '\\pL', '\\P{Lx}', '\\p{l}', '\\p{LU}', '\\p{Letter}', '\\p{ L}']) + B
+            p = A + rnd.choice(['\\p{Xx}', '\\p{}', '\\pL', '\\P{Lx}', '\\p{l}', '\\p{LU}', '\\p{Letter}', '\\p{ L}']) + B
+        elif op == 'unclosed-category':
+            p = A + rnd.choice(['\\p{L', '\\p', '\\P', '\\p{IsGreek'])
+        elif op == 'open-brace-category-at-end':
+            p = A + rnd.choice(['\\p{', '\\P{'])
         elif op == 'bare-close-bracket': p = A + ']' + B
         elif op == 'bare-brace': p = A + rnd.choice(['}', '{']) + B if A == '' or rnd.random() < 0.5 else A + '}' + B
         elif op == 'bracket-in-class': p = A + rnd.choice(['[a[b]', '[[]', '[a[]']) + B
         elif op == 'dollar-escape': p = A + '\\$' + B
         elif op == 'backreference': p = '(a)' + A + '\\1' + B
         elif op == 'backref-missing-group': p = 'a' + '\\' + rnd.choice('123') + 'b' if rnd.random() < 0.5 else '(a)\\2'
-        elif op == 'lone-high-surrogate': p = A + rnd.choice(['a', '', '[', '[a-']) + '\ud800' + rnd.choice(['', 'b', ']'])
+        elif op == 'lone-high-surrogate': p = A + rnd.choice(['a', '', '[', '[a-']) + '\ud800' + rnd.choice(['b', ']', 'b]'])
         else: raise ValueError(op)
         out.append((p, op))
     return out
@@ -1372,6 +1456,7 @@ class Ref:
 
     def __init__(self, ast, dialect, flags='', quirks=frozenset()):
         self.ast = ast
+        self.flags = flags
         self.xsd = dialect == 'xsd'
         self.env = Env(xsd=self.xsd, icase='i' in flags, dotall='s' in flags, multiline='m' in flags, quirks=quirks)
         self.anch = has_anchor(ast)
@@ -1471,3 +1556,69 @@ def reductions(ast):
                 emit(put(items[0]))
     rec(ast, lambda x: x)
     return out
+
+
+def class_overlaps(cls):
+    """the positive items of a class (or of its subtrahend) contain two ranges/literals that overlap or touch out of order"""
+    items = [(i[1], i[1]) if i[0] == 'lit' else (i[1], i[2]) for i in cls[2] if i[0] in ('lit', 'rng')]
+    for x in range(len(items)):
+        for y in range(x + 1, len(items)):
+            if items[x][0] <= items[y][1] and items[y][0] <= items[x][1]:
+                return True
+    return cls[3] is not None and class_overlaps(cls[3])
+
+
+def norm_classes(ast):
+    """same language; the literal/range members of every class become disjoint, non-adjacent, ascending ranges"""
+    def nc(c):
+        rs = sorted((i[1], i[1]) if i[0] == 'lit' else (i[1], i[2]) for i in c[2] if i[0] in ('lit', 'rng'))
+        merged = []
+        for lo, hi in rs:
+            if merged and lo <= merged[-1][1] + 1:
+                merged[-1][1] = max(merged[-1][1], hi)
+            else:
+                merged.append([lo, hi])
+        items = [('lit', lo) if lo == hi else ('rng', lo, hi) for lo, hi in merged] + [i for i in c[2] if i[0] not in ('lit', 'rng')]
+        return ('cls', c[1], items, nc(c[3]) if c[3] is not None else None)
+
+    def go(n):
+        k = n[0]
+        if k == 'cls': return nc(n)
+        if k in ('seq', 'alt'): return (k, [go(c) for c in n[1]])
+        if k == 'grp': return ('grp', go(n[1]))
+        if k == 'rep': return ('rep', go(n[1]), n[2], n[3], n[4], n[5])
+        return n
+    return go(ast)
+
+
+def leading_dot_closure(ast):
+    """some match can begin inside a closure (any quantifier but '?') whose operand can begin with '.'"""
+    def starts_with_dot(n):
+        k = n[0]
+        if k == 'dot': return True
+        if is_leaf(n) or k in ('eps', 'bol', 'eol'): return False
+        if k == 'grp': return starts_with_dot(n[1])
+        if k == 'rep': return starts_with_dot(n[1])
+        if k == 'alt': return any(starts_with_dot(c) for c in n[1])
+        if k == 'seq':
+            for c in n[1]:
+                if starts_with_dot(c): return True
+                if not nullable_ast(c): return False
+            return False
+        return False
+
+    def first(n):
+        k = n[0]
+        if is_leaf(n) or k in ('eps', 'bol', 'eol'): return False
+        if k == 'grp': return first(n[1])
+        if k == 'alt': return any(first(c) for c in n[1])
+        if k == 'rep':
+            if n[4] not in ('+', '?') and starts_with_dot(n[1]): return True
+            return first(n[1])
+        if k == 'seq':
+            for c in n[1]:
+                if first(c): return True
+                if not nullable_ast(c): return False
+            return False
+        return False
+    return first(ast)
